@@ -35,7 +35,7 @@ ASSUMPTIONS = [
 REQUIRED_MONITORS = ['verdicts:compared', 'rows:flags_compared', 'rows:n_failures_compared', 'file:exists_iff_failed',
                      'file:content_compared', 'input:unchanged_checked', 'partition:checked', 'history:stale_file',
                      'reach:write_detected_records']
-REQUIRED_CLASSES = ['fmt=none', 'fmt=csv', 'fmt=parquet', 'per_constraint=1', 'write_all=1', 'in_place=1',
+REQUIRED_CLASSES = ['index=custom', 'fmt=none', 'fmt=csv', 'fmt=parquet', 'per_constraint=1', 'write_all=1', 'in_place=1',
                     'interleave=1', 'boolean_ints=1', 'index=1', 'outcome=clean', 'outcome=failing',
                     'stale=earlier-run', 'stale=unrelated']
 NAMES = ['a', 'b', 'c', 'd', 'colE', 'f1']
@@ -75,8 +75,24 @@ def gen_case(rng, i):
     opts = {'per_constraint': rng.random() < 0.6, 'write_all': rng.random() < 0.35, 'output_fields': of,
             'index': rng.random() < 0.4, 'in_place': rng.random() < 0.25, 'interleave': rng.random() < 0.25,
             'boolean_ints': rng.random() < 0.3}
+    n = spec['nrows']
+    ik = rng.choice(['default', 'default', 'permuted', 'offset', 'reversed'])
+    if ik == 'permuted':
+        spec['index'] = rng.sample(range(n), n)
+    elif ik == 'offset':
+        spec['index'] = [100 + 3 * t for t in range(n)]
+    elif ik == 'reversed':
+        spec['index'] = list(range(n - 1, -1, -1))
     return {'spec': spec, 'cset': cset, 'epsilon': rng.choice([None, 0, 0.01, 0.5]), 'opts': opts, 'fmt': fmt,
             'stale': rng.choice([None, None, 'earlier-run', 'unrelated']) if fmt else None}
+
+
+def build(spec):
+    """The frame, with the (possibly non-default) integer index the case asks for."""
+    df = F.build_frame(spec)
+    if spec.get('index') is not None:
+        df.index = list(spec['index'])
+    return df
 
 
 def frame_fingerprint(df):
@@ -95,7 +111,7 @@ def run_case(ctx, case):
     err = io.StringIO()
     if cset is None:
         with contextlib.redirect_stderr(err), contextlib.redirect_stdout(err):
-            cons = discover_df(F.build_frame(spec))
+            cons = discover_df(build(spec))
         if cons is None:
             return
         cset = json.loads(cons.to_json())
@@ -103,7 +119,7 @@ def run_case(ctx, case):
     case = dict(case, cset=cset)
     kw = {} if case['epsilon'] is None else {'epsilon': case['epsilon']}
     sem = {'epsilon': case['epsilon'], 'type_checking': None}
-    cls = [('fmt=%s' % (case['fmt'] or 'none'),), ('stale=%s' % case['stale'],)] + \
+    cls = [('fmt=%s' % (case['fmt'] or 'none'),), ('stale=%s' % case['stale'],), ('index=%s' % ('custom' if spec.get('index') is not None else 'default'),)] + \
           [('%s=%d' % (k, bool(o[k])),) for k in ('per_constraint', 'write_all', 'index', 'in_place', 'interleave', 'boolean_ints')] + \
           [('output_fields=%s' % ('none' if o['output_fields'] is None else 'all' if o['output_fields'] == [] else 'some'),)]
     outdir = os.path.join(ctx.scratch, 'c06out')
@@ -122,9 +138,9 @@ def run_case(ctx, case):
     stage = 'verify'
     try:
         with contextlib.redirect_stderr(err), contextlib.redirect_stdout(err):
-            v = verify_df(F.build_frame(spec), cset, repair=False, **kw)
+            v = verify_df(build(spec), cset, repair=False, **kw)
             stage = 'detect'
-            df2 = F.build_frame(spec)
+            df2 = build(spec)
             fp_before = frame_fingerprint(df2)
             with fsmon.watch() as w:
                 d = detect_df(df2, cset, repair=False, outpath=outpath, per_constraint=o['per_constraint'],
@@ -174,7 +190,7 @@ def run_case(ctx, case):
         rec.violation('writes_without_outpath', {'case': case, 'mech': {}, 'facts': {'paths': sorted(w.written_paths())[:4]}})
     # ---- input frame ------------------------------------------------------------------
     rec.event('input:unchanged_checked')
-    fresh = F.build_frame(spec)
+    fresh = build(spec)
     if o['in_place']:
         same = list(df2.columns)[:len(fresh.columns)] == list(fresh.columns) and frame_fingerprint(df2[list(fresh.columns)]) == fp_before
     else:
@@ -206,10 +222,17 @@ def run_case(ctx, case):
     # ---- output frame -------------------------------------------------------------------------
     rec.event('rows:n_failures_compared')
     want_rows = list(range(nrows)) if o['write_all'] else exp_fail_rows
+    labels = list(spec['index']) if spec.get('index') is not None else list(range(nrows))
+    want_labels = [labels[i] for i in want_rows]
     got_rows = [int(x) for x in det.index]
-    if got_rows != want_rows:
-        rec.violation('output_frame_rows', {'case': case, 'mech': {'kinds': mech_kinds, 'write_all': o['write_all']},
-                                            'facts': {'rows': got_rows[:10], 'expected': want_rows[:10]}})
+    if 'Index' in det.columns and 'Index' not in cols and got_rows != want_labels:
+        # typed (parquet) output: tdda moves the row labels into an 'Index' column of the very frame it
+        # returns; the records are identified through that column then (observation, not a violation)
+        got_rows = [int(x) for x in det['Index']]
+        rec.note('returned detection frame carries its row labels in an Index column (parquet output)')
+    if got_rows != want_labels:
+        rec.violation('output_frame_rows', {'case': case, 'mech': {'kinds': mech_kinds, 'write_all': o['write_all'], 'index': 'custom' if spec.get('index') is not None else 'default'},
+                                            'facts': {'rows': got_rows[:10], 'expected': want_labels[:10]}})
     else:
         got_nf = [int(x) for x in det['n_failures']]
         if got_nf != [exp_nf[i] for i in want_rows]:
@@ -254,9 +277,9 @@ def run_case(ctx, case):
         want_nf = [exp_nf[i] for i in want_rows]
         if 'Index' in fdf.columns and len(spec['cols']) and 'Index' not in cols:
             frows = [int(x) for x in fdf['Index']]
-            if frows != want_rows or fnf != want_nf:
-                rec.violation('output_file_rows', {'case': case, 'mech': {'fmt': case['fmt'], 'write_all': o['write_all']},
-                                                   'facts': {'rows': frows[:10], 'expected': want_rows[:10], 'n_failures': fnf[:10], 'true': want_nf[:10]}})
+            if frows != want_labels or fnf != want_nf:
+                rec.violation('output_file_rows', {'case': case, 'mech': {'fmt': case['fmt'], 'write_all': o['write_all'], 'index': 'custom' if spec.get('index') is not None else 'default'},
+                                                   'facts': {'rows': frows[:10], 'expected': want_labels[:10], 'n_failures': fnf[:10], 'true': want_nf[:10]}})
         elif fnf != want_nf:
             rec.violation('output_file_rows', {'case': case, 'mech': {'fmt': case['fmt'], 'write_all': o['write_all']},
                                                'facts': {'n_failures': fnf[:10], 'true': want_nf[:10]}})
